@@ -51,6 +51,11 @@ pub fn generate(rng: &mut Rng, tier: &str) -> Scenario {
         0 | 1 | 2 => sc.fault = FaultSpec::Vis(rng.below(40) as u32, rng.chance(1, 2)),
         _ => {}
     }
+    // hand-written writers in a quarter of the runs: length hints absent / inexact, entries split into
+    // key + value, structs written as maps or (positionally) as tuples
+    if rng.chance(1, 4) {
+        sc.whmask |= (rng.next() as u32) & (H1_NOLEN | H2_SPLIT_ENTRY | H6_INEXACT_LEN | H7_STRUCT_AS_MAP | H8_STRUCT_AS_TUPLE);
+    }
     // hand-written leaf visitors (visit_i64 / visit_f64 only) in a third of the runs
     if rng.chance(1, 3) {
         sc.rhmask |= H9_NARROW;
@@ -234,8 +239,10 @@ fn exec_a(sc: &Scenario, verbose: bool, out: &mut RunOut) {
     if has_dt(val) {
         out.stats.inc("probe.datetime_leaf");
     }
-    let wcfg = WCfg::new(0, 0);
-    let w = W { ty, v: val, cfg: &wcfg };
+    let wcfg = WCfg::new(sc.whmask & 0xff, crate::rng::mix(&[sc.whseed, 0x77]));
+    // a struct written positionally changes the shape of the text: outside the must-succeed class
+    let must = must && sc.whmask & H8_STRUCT_AS_TUPLE == 0;
+    let w = WTop(W { ty, v: val, cfg: &wcfg });
     let sname = TEXT_SERS[(sc.whseed as usize) % TEXT_SERS.len()];
     // the document: text obtained by serializing a value of the target type
     let text = match catch_unwind(AssertUnwindSafe(|| ser_plain(sname, &w))) {
@@ -324,7 +331,7 @@ fn exec_a(sc: &Scenario, verbose: bool, out: &mut RunOut) {
                 (Ty::Option(t), Val::Some(x)) if matches!(**t, Ty::Option(_)) => (&**t, &**x),
                 other => other,
             };
-            let fw = W { ty: ft, v: fv, cfg: &wcfg };
+            let fw = WTop(W { ty: ft, v: fv, cfg: &wcfg });
             // the value's text comes from either crate's single-value serializer (seeded choice)
             let use_toml = crate::rng::mix(&[sc.whseed, ft.count_nodes() as u64, 0x7a]) % 2 == 0;
             let ftext = if use_toml {
